@@ -23,6 +23,7 @@ from contracts import wiring as W
 
 W_N = "contracts.wiring_native"
 RP = {"module": W_N, "func": "replay_history", "kwargs": {"budget": 1500}, "vars": {}}
+RP_COPY = {"module": "contracts.copy_native", "func": "replay_copy", "kwargs": {"budget": 120}, "vars": {}}
 LOADERS = {"Antecedent.load": W.AntecedentLoad(), "Consequent.load": W.ConsequentLoad()}
 RULE_FIELDS = {"Rule.activation_degree", "Rule.triggered", "Antecedent.expression", "Consequent.conclusions"}
 ZERO = x2xr(xr.const(0.0))
@@ -325,7 +326,7 @@ def verify_no_custom_copy(run):
     cp = src.func("engine", "Engine.copy")
     run.under_contract("engine", "Engine.copy", cp)
     body = [ast.unparse(x) for x in cp.body if not (isinstance(x, ast.Expr) and isinstance(x.value, ast.Constant))]
-    run.add(static("engine.Engine.copy/is_deepcopy", body == ["import copy", "engine = copy.deepcopy(self)", "return engine"], f"body: {body}", fn="engine.Engine.copy", meta={"replay": RP}))
+    run.add(static("engine.Engine.copy/is_deepcopy", body == ["import copy", "engine = copy.deepcopy(self)", "return engine"], f"body: {body}", fn="engine.Engine.copy", meta={"replay": RP_COPY}))
     # no module-level or class-level mutable cache is written by the functions of the processing path (frames are per-object; this is the global part)
     bad = []
     for (m, q), fns in src.functions.items():
@@ -403,6 +404,11 @@ def build(run):
     run.bounded("engine.Engine/history_restart_copy.runtime", W_N, "replay_history", [dict(seed=run.seed, budget=budget)],
                 bound=f"{budget} generated engines (incl. Linear and Function terms holding engine references) x random interleavings of length <= 8 of {{set inputs, process, restart, copy and switch to the copy, "
                       "edit a parameter of the copy (in place and by assignment), toggle an enabled flag and restore it, edit a rule text and reload}; each result (output values, fuzzy outputs, per-rule degree and triggered flag) compared with a freshly built engine and the untouched original")
+    nb = 120 if run.tier == "quick" else 2400
+    run.bounded("engine.Engine.copy/copies_are_independent.runtime", "contracts.copy_native", "replay_copy", [dict(seed=run.seed, budget=nb)],
+                bound=f"{nb} engines over the activation methods with parameters (First, Last, Highest, Lowest, Threshold), Proportional and General x integral / weighted outputs x Linear and Function terms: "
+                      "the same engine copied twice (two new objects), no component object with state shared between original and copies, edits of one (activation parameter, term, weight, defuzzifier, rule text, "
+                      "default / lock-range, input term) leave text and outputs of the others unchanged, a copy taken after an edit of the original has the edit")
 
 
 if __name__ == "__main__":
